@@ -552,7 +552,7 @@ impl YGrammar {
 const RULE_NAMES: &[&str] = &["S", "Expr", "Term", "stmt_list", "_x", "A1", "B", "C", "id", "Z9_", "a.b", ".c"];
 const TOK_NAMES: &[&str] = &[
     "a", "b", "id", "INT", "PLUS", "c_d", "+", "*", "(", ")", "\u{e9}", "a b", "\"", "'", "/", "//", "/*", "{", "}", "%", "|", ";", ":",
-    "==", "\u{2764}x", "%%", "->",
+    "==", "\u{2764}x", "%%", "->", "don't", "x\"", "\"y", "a'b",
 ];
 const TYPES: &[&str] = &["u64", "Result<u64, ()>", "std::vec::Vec<u8>", "(u64, T<'a>)", "Option<crate::X>", "()", "Vec<\u{e9}>"];
 const ACTION_BITS: &[&str] = &[
